@@ -117,7 +117,7 @@ structure Message (r0 : Rd) (f0 : WFrame) (fs : List WFrame) : Prop where
   ok0 : f0.OK
   data0 : opIsControl f0.h.op = false
   acc0 : AcceptsAt r0.skipCheck r0.state r0.maxFrame f0.h
-  rest : if f0.h.fin then fs = [] else Tail r0.skipCheck (stSet r0.state stFragmented) r0.maxFrame fs
+  rest : if f0.h.fin then fs = [] else Tail false r0.skipCheck (stSet r0.state stFragmented) r0.maxFrame fs
 
 /-- **C04, message level.** See the file header. -/
 theorem message_delivered (r0 : Rd) (s : Src) (cx : Ctx) (f0 : WFrame) (fs : List WFrame) (rest : Bytes)
@@ -147,7 +147,7 @@ theorem message_delivered (r0 : Rd) (s : Src) (cx : Ctx) (f0 : WFrame) (fs : Lis
   have hc : Common r0.skipCheck st r0.maxFrame (enter r0 f0.h) s1 :=
     ⟨by simp [enter, hext], by simp [enter, hu8], by simp [enter], by simp [enter], ht1, by rw [hb1]; exact hwt, b1, b2, b3⟩
   have hpl : plainOf (enter r0 f0.h) f0.wire = f0.plain := rfl
-  have hsync : Sync r0.skipCheck st r0.maxFrame rest (enter r0 f0.h) s1 (dataPlain (f0 :: fs)) := by
+  have hsync : Sync false r0.skipCheck st r0.maxFrame rest (enter r0 f0.h) s1 (dataPlain (f0 :: fs)) := by
     have hrest := hm.rest
     by_cases hfin : f0.h.fin = true
     · simp only [hfin, if_true] at hrest
@@ -177,7 +177,15 @@ theorem message_delivered (r0 : Rd) (s : Src) (cx : Ctx) (f0 : WFrame) (fs : Lis
       refine Sync.mid _ s1 f0.wire fs hc ?_ (by simp [enter, hfin', st]) hrest
       exact ⟨by simp [enter], by simp [enter, hu8], hb1, by simp [enter, hm.ok0.len],
           by rw [hb1]; exact hwt, by simp [enter]; exact hm.ok0.mwf, ht1⟩
-  obtain ⟨out, e, r', s', hrd, hcase⟩ := reads_sync r0.skipCheck st r0.maxFrame rest ks hpos _ s1 cx _ hsync
+  have key := reads_sync false r0.skipCheck st r0.maxFrame rest ks hpos _ s1 cx _ hsync
+  have key' : ∃ out e r' s', reads (enter r0 f0.h) s1 cx ks = some (out, e, r', s', cx) ∧
+      ((e = none ∧ ∃ rem', dataPlain (f0 :: fs) = out ++ rem' ∧ Sync false r0.skipCheck st r0.maxFrame rest r' s' rem'
+          ∧ weight r' s' + ks.length ≤ weight (enter r0 f0.h) s1)
+       ∨ (e = some .eof ∧ dataPlain (f0 :: fs) = out ∧ s'.bytes = rest ∧ Src.Tame s' ∧ Done st (enter r0 f0.h) r')) := by
+    rcases key with h | ⟨_, _, _, _, _, _, _, _, _, hend⟩
+    · exact h
+    · exact absurd hend.opn (by decide)
+  obtain ⟨out, e, r', s', hrd, hcase⟩ := key'
   refine ⟨enter r0 f0.h, s1, out, e, r', s', hnext, hrd, ?_, ?_, ?_, ?_⟩
   · rcases hcase with ⟨_, rem', h1, _, _⟩ | ⟨_, h1, _⟩
     · exact ⟨rem', h1⟩
@@ -212,7 +220,7 @@ def exSrc : Src := { chunks := [exBytes.take 1, exBytes.drop 1 |>.take 4, [], ex
 
 example : Message exR0 exF0 [exPing, exF1, exF2] := by
   refine ⟨⟨by decide, by decide, by decide, by decide⟩, by decide, ⟨by decide, by decide⟩, ?_⟩
-  show Tail false 9 0 [exPing, exF1, exF2]
+  show Tail false false 9 0 [exPing, exF1, exF2]
   refine Tail.ctl _ _ ⟨by decide, by decide, by decide, by decide⟩ (by decide) ⟨by decide, by decide⟩ ?_
   refine Tail.cont _ _ ⟨by decide, by decide, by decide, by decide⟩ (by decide) (by decide) ⟨by decide, by decide⟩ ?_
   exact Tail.last _ ⟨by decide, by decide, by decide, by decide⟩ (by decide) (by decide) ⟨by decide, by decide⟩
